@@ -387,6 +387,7 @@ type Machine struct {
 	allocGuardBound int64
 	freshCount      int
 	trimCache       map[*Term]*Term
+	trimCacheSet    map[string]map[*Term]*Term
 	splitCache      map[string][]*Term
 	ufCount         int
 }
